@@ -716,7 +716,9 @@ def check_search(ctx, led, om):
     outs = dict()
     for status, c in se.data.get("outcomes", []):
         outs.setdefault(status, []).append(c)
-    cont = cn(mk_or(outs.get("continue", []))) if outs.get("continue") else Const(False)
+    # reaching the end of the body is the same as `continue`: the next candidate is tried
+    again = outs.get("continue", []) + outs.get("normal", [])
+    cont = cn(mk_or(again)) if again else Const(False)
     brk = cn(mk_or(outs.get("break", []))) if outs.get("break") else Const(False)
     led.check(
         cont == exp_cont,
@@ -732,13 +734,6 @@ def check_search(ctx, led, om):
         "CVSS4.compute_base_score::search loop break condition",
         se.where(),
         "the search must stop at the first candidate with no negative distance",
-    )
-    led.check(
-        not outs.get("normal"),
-        "C02.search.firstfit",
-        "CVSS4.compute_base_score::search loop fallthrough",
-        se.where(),
-        "an iteration can fall through without continue/break: the last candidate would be used instead of the first fit",
     )
     return n
 
